@@ -138,11 +138,11 @@ func (w *c40Worker) ensureState(first bool) {
 		w.g.basic[u.Name] = srvfix.Basic(u.Name, u.Password)
 	}
 
-	// bearer tokens for two identities only (each validation is an argon2id derivation); re-checked now and then
+	// a bearer token for the administrator only (each validation is an argon2id derivation); re-checked now and then
 	w.calls++
 
-	for _, name := range []string{"admin", "u-sql"} {
-		ok := w.g.auth[name] != "" && w.calls%100 != 0
+	for _, name := range []string{"admin"} {
+		ok := w.g.auth[name] != "" && w.calls%200 != 0
 
 		if !ok && w.g.auth[name] != "" {
 			r := f.Do(srvfix.Request{Method: "GET", Path: "/services/admin/authenticate", Header: map[string]string{"Authorization": w.g.auth[name], "Accept": "application/json"}})
